@@ -240,7 +240,7 @@ def main(argv):
                 r = check_send(n, mtu, tid, fails, stats)
                 if r is None or len(r[1]) < 2:
                     continue
-                if tid == 24 and (len(r[1]) <= 40 or tier == 'thorough'):
+                if tid == 24 and len(r[1]) <= (600 if tier == 'thorough' else 40):
                     run_receive(r[0], r[1], {'length': n, 'mtu': mtu, 'tid': tid}, fails, stats, rnd)
                     if len(samples) < 3:
                         samples.append({'length': n, 'mtu': mtu, 'segments': len(r[1])})
